@@ -7,8 +7,7 @@ of the host property are padded with `true` for the executor clauses and vice ve
 under their own Coq imports (Prop.header_for)."""
 from . import execlib as X
 
-C07_CLAUSES = ['announced_once', 'handed_on_once', 'unscheduled_once', 'not_collected_and_canceled',
-               'outcome_attached', 'announced_before_handed_on', 'exit_code_truthful']
+C07_CLAUSES = X.C07_CLAUSES      # the clause names of RP.Exec.Oracle.c07_row, in its order
 KIND = 'execside'
 
 
